@@ -216,6 +216,10 @@ pub struct Model<'a> {
     /// include statements whose path cannot be evaluated: (instance, statement start, end)
     pub unusable_sites: Vec<(usize, usize, usize)>,
     pub parser_panic: Option<String>,
+    /// policy: the front end reads a file before it refuses it as recursive
+    pub read_before_refusal: bool,
+    /// the list the run got the last time it consulted QASM3_PATH (None: not consulted so far)
+    pub env_dirs: Option<Vec<PathBuf>>,
     /// a delivered text whose tree does not spell it: (target, tree length, text length)
     pub tree_mismatch: Option<(String, usize, usize)>,
     pub any_syntax: bool,
@@ -271,6 +275,8 @@ impl<'a> Model<'a> {
             unusable_include: false,
             unusable_sites: vec![],
             parser_panic: None,
+            read_before_refusal: false,
+            env_dirs: None,
             tree_mismatch: None,
             any_syntax: false,
             total_syntax_errors: 0,
@@ -331,11 +337,17 @@ impl<'a> Model<'a> {
                     if c.path != "QASM3_PATH" {
                         self.r2_err("env-name", format!("environment variable {} consulted", c.path));
                     }
-                    match &c.out {
+                    let dirs: Vec<PathBuf> = match &c.out {
                         Out::Env(Some(v)) => std::env::split_paths(v).collect(),
                         _ => vec![],
-                    }
+                    };
+                    self.env_dirs = Some(dirs.clone());
+                    dirs
                 }
+                // C18 does not say *when* the variable is read: a front end that reads it once
+                // per parse and keeps the list is as good as one that reads it for every include.
+                // If this run has consulted it before, the value it got then is reused.
+                _ if self.env_dirs.is_some() => self.env_dirs.clone().unwrap(),
                 None => {
                     self.truncated = true;
                     vec![]
@@ -633,7 +645,15 @@ impl<'a> Model<'a> {
                 // No read of the target. Legal in exactly two situations.
                 if recursive {
                     // (a) the file is already being included: refusing to read it again is
-                    // the expected behaviour for a cycle.
+                    // the expected behaviour for a cycle. Whether the front end looks at the
+                    // file before it refuses is immaterial: a read of the target at this point
+                    // is accepted and its result ignored.
+                    // That is a policy of the front end, not a per-site decision: the model is
+                    // built without it first (what the code does today) and, if that does not
+                    // explain the run, once more with `read_before_refusal` (`oracle::judge`).
+                    if self.read_before_refusal && next_reads_target {
+                        self.cur += 1;
+                    }
                     self.insts[child].refused_recursive = true;
                     self.cycle_refusals += 1;
                     if let Some(t) = truth {
